@@ -53,7 +53,8 @@ ASSUMPTIONS = [
 REQUIRED = ["io_roundtrips", "io_tiff", "io_npy", "io_nrrd", "io_uint_to_float", "io_float_to_uint",
             "io_same_kind", "io_size1_axis", "io_rgb", "io_3d_input", "rasters", "voxels_compared",
             "voxels_lit", "raster_anisotropic", "raster_generic_resolution", "raster_far_positions",
-            "raster_saved_and_read", "raster_explicit_ranges", "rasters_after_inplace_edit",
+            "raster_saved_and_read", "raster_explicit_ranges", "raster_thin_tiles",
+            "rasters_after_inplace_edit",
             "tap_get_samplers"]
 FLOOR = {"quick": 450, "thorough": 9000}
 SHARDS = {"quick": 8, "thorough": 16}
@@ -285,6 +286,12 @@ def _raster_pass(ctx, case, tmp, tree, pid, tf, res_arg, prefix):
         cmax = np.ceil((X + R[:, None]).max(0)) + rng.integers(0, 3, 3)
         if case["ranges"] == "crop":  # a window cutting through the tree
             cmax = cmin + np.maximum(np.ceil((cmax - cmin) * 0.6), np.ceil(st) + 1)
+        elif case["ranges"] == "slab":
+            # a thin tile in the middle of the box: segments cross it with both end nodes outside
+            ax = int(rng.integers(0, 3))
+            mid = np.floor((cmin[ax] + cmax[ax]) / 2)
+            cmin[ax], cmax[ax] = mid, mid + np.ceil(2 * st[ax]) + 1
+            ctx.count("raster_thin_tiles")
         # the caller's own range arrays (often float32, like tree.xyz()), reused between calls:
         # they are read, never written
         if case["seed"] % 2:
@@ -467,9 +474,11 @@ def run(ctx):
                     "res": res, "scalar_res": bool(len(set(res)) == 1 and rng.random() < 0.5),
                     "rscale": float(rng.choice([0.4, 0.8, 1.5, 3.0])),
                     "step": float(rng.choice([1.5, 3.0, 6.0])), "origin": origin,
-                    "ranges": str(rng.choice(["auto", "auto", "auto", "pad", "crop"])),
+                    "ranges": str(rng.choice(["auto", "auto", "auto", "pad", "crop", "slab", "slab"])),
                     "save": bool(rng.random() < 0.25), "edit": bool(rng.random() < 0.35),
                     "res_form": str(rng.choice(["list", "tuple", "array", "array32"]))}
+            if case["ranges"] == "slab":  # long thin segments, so that they cross the tile
+                case["step"], case["rscale"] = 6.0, 0.8
             ctx.case(case, klass="raster")
             execute(ctx, case)
     ctx.count("tap_get_samplers", tap.counts["get_samplers"])
